@@ -62,9 +62,9 @@ static void alt_family(const char *fmt, mpz_srcptr v) {
   obstack_init(&ob); r = v_obprintf(&ob, fmt, v); n = obstack_object_size(&ob); alt_add("gmp_obstack_vprintf", (char *)obstack_base(&ob), n, r); obstack_free(&ob, NULL);
   fputc(']', altf); fclose(altf);
 }
-static long row_no;
+static long row_no; static int force_alt;
 static void one_row(const char *fl, int w, int p, char conv, mpz_srcptr v) {
-  char fmt[64], cfmt[64], g[4096], c[4096], cv[2] = {conv, 0}; int ret, havec = mpz_fits_slong_p(v), alt = (row_no++ % 5 == 0);
+  char fmt[64], cfmt[64], g[4096], c[4096], cv[2] = {conv, 0}; int ret, havec = mpz_fits_slong_p(v), alt = (row_no++ % 5 == 0) || force_alt;
   int ws = w >= 1000, ps = p >= 1000 && p != 3000;
   mkfmt(fmt, fl, w, p, "Z", conv); mkfmt(cfmt, fl, w, p, "l", conv);
   if (ws || ps) {      /* '*' arguments precede the value */
@@ -147,6 +147,12 @@ void drv_c18_misc(int tier, unsigned long seed, const char *extra) {
       for (j = 0; j < 5; j++) { fn_begin("gmp_printf_hp"); fn_in_str("fmt", bf[j]); fn_mid(); priv_begin(); ret = gmp_asprintf(&ap, bf[j], hp); priv_end();
         fn_out_int("ret", ret); fn_out_int("len", ap ? (long)strlen(ap) : -1); fn_end(); priv_begin(); if (ap) (*freef)(ap, strlen(ap) + 1); ap = NULL; priv_end(); }
       priv_begin(); mpf_clear(hp); priv_end(); }
+    /* runs of padding / precision zeros longer than the output callbacks' internal blocks (printffuns.c writes fill characters in blocks of 256): widths and
+       precisions next to 256 and 512 and one far beyond, right / left / zero padded, through EVERY member of the family */
+    if (x % 10 == 8) { static const int big[] = {255, 256, 257, 258, 300, 511, 512, 513, 1000}; int bi; force_alt = 1;
+      priv_begin(); mpz_set_si(w, (long)rnd_below(200000) - 100000); priv_end();
+      for (bi = 0; bi < 9; bi++) { one_row("", big[bi], -1, 'd', w); one_row("-", big[bi], -1, 'x', w); one_row("0", big[bi], -1, 'd', w); one_row("", -1, big[bi], 'd', w); one_row("#", big[bi] + 40, big[bi], 'o', w); }
+      force_alt = 0; }
     /* a standard %c conversion given the NUL character in front of a %Z conversion: every member of the family emits the byte and counts it
        ("standard conversions mixed into the format are unaffected"); bytes are logged in hex */
     if (x % 10 == 4) { int fam; char *hx2 = NULL; static const char *fn5[] = {"gmp_sprintf", "gmp_snprintf", "gmp_asprintf", "gmp_fprintf", "gmp_obstack_printf"};
